@@ -116,7 +116,12 @@ def final_checks(w):
     Af = fine_operator(w, c)
     A = (I.T @ Af @ I).tocsr()
     A = ((A + A.T) * 0.5).tocsr()
-    f = rng.uniform(-1, 1, nd)
+    # the clauses hold for EVERY SPD system, also badly scaled ones (SI units on a micro-scale domain, a tiny
+    # diffusion coefficient, ...): scale operator and right-hand side by a seeded factor
+    scal = [1.0, 1.0, 1e-6, 1e-13, 1e-16, 1e8][q.choice(6)]
+    ctx.count('operator.scale.%g' % scal)
+    A = (A * scal).tocsr()
+    f = rng.uniform(-1, 1, nd) * scal
     g = np.zeros(nd)
     dl = np.array(sorted(dirs[L - 1]), dtype=int)
     if len(dl) and q.choice(2):
@@ -164,7 +169,7 @@ def final_checks(w):
                       lambda: '%s/%s changed Dirichlet dofs' % (strat, sm), s)
         if sm == 'exact':
             e0, e1 = enorm(xs - x0), enorm(xs - x1)
-            ctx.check(e1 <= e0 * (1 + 1e-9) + 1e-12, 'mg-energy-increase',
+            ctx.check(e1 <= e0 * (1 + 1e-9) + 1e-12 * np.sqrt(scal), 'mg-energy-increase',
                       lambda: '%s/exact: energy error %.6g -> %.6g (numdofs %d, %d levels, truncate=%s)'
                       % (strat, e0, e1, nd, L, hs.truncate), s)
         ctx.count('mg.step.checked')
